@@ -11,13 +11,14 @@ define_language! {
         Add(AppliedId, AppliedId) = "add",
         Mul(AppliedId, AppliedId) = "mul",
         Neg(AppliedId) = "neg",
+        Sub(AppliedId, AppliedId) = "sub",
         Sum(Bind<AppliedId>) = "sum",
         Let(Bind<AppliedId>, AppliedId) = "let",
         Num(u32),
     }
 }
 
-pub const AR_SIG: Sig = &[("var", "s"), ("add", "cc"), ("mul", "cc"), ("neg", "c"), ("sum", "b"), ("let", "bc"), ("0", ""), ("1", ""), ("2", ""), ("3", "")];
+pub const AR_SIG: Sig = &[("var", "s"), ("add", "cc"), ("mul", "cc"), ("neg", "c"), ("sub", "cc"), ("sum", "b"), ("let", "bc"), ("0", ""), ("1", ""), ("2", ""), ("3", "")];
 
 /// `sum $x b` denotes b[x:=1] + b[x:=2] + b[x:=3].  (Summing over the WHOLE field would make every summand of
 /// degree < p-1 in x vanish - e.g. sum_x x*y = sum_x x*x = 0 in F_5 - and blind the model to what happens under the
@@ -63,6 +64,11 @@ pub fn ar_node(t: &T, kids: &mut dyn FnMut() -> AppliedId) -> Ar {
             Ar::Mul(a, b)
         }
         "neg" => Ar::Neg(kids()),
+        "sub" => {
+            let a = kids();
+            let b = kids();
+            Ar::Sub(a, b)
+        }
         "sum" => {
             let Arg::Bind(xs, _) = &t.args[0] else { panic!() };
             Ar::Sum(Bind { slot: ar_slot(xs[0]), elem: kids() })
@@ -98,6 +104,7 @@ pub fn eval_t(t: &T, env: &BTreeMap<Name, u32>, p: u32) -> u32 {
         "add" => (ch(0, env) + ch(1, env)) % p,
         "mul" => (ch(0, env) * ch(1, env)) % p,
         "neg" => (p - ch(0, env)) % p,
+        "sub" => (ch(0, env) + p - ch(1, env)) % p,
         "sum" => {
             let Arg::Bind(xs, _) = &t.args[0] else { panic!() };
             let mut s = 0;
@@ -145,6 +152,7 @@ pub fn rule_pool() -> Vec<RuleSpec> {
         r("mul-zero", "(mul ?a 0)", "0"),
         r("neg-add", "(add ?a (neg ?a))", "0"),
         r("neg-neg", "(neg (neg ?a))", "?a"),
+        r("sub-self", "(sub ?a ?a)", "0"),
         c("sum-const", "(sum $x ?c)", "(mul 3 ?c)", "x", "c"),
         r("sum-linear", "(sum $x (add ?a ?b))", "(add (sum $x ?a) (sum $x ?b))"),
         c("sum-factor-out", "(sum $x (mul ?c ?b))", "(mul ?c (sum $x ?b))", "x", "c"),
@@ -270,6 +278,7 @@ pub enum NT {
     Add(Box<NT>, Box<NT>),
     Mul(Box<NT>, Box<NT>),
     Neg(Box<NT>),
+    Sub(Box<NT>, Box<NT>),
     Sum(String, Box<NT>),
     Let(String, Box<NT>, Box<NT>),
 }
@@ -280,7 +289,7 @@ pub fn nt_free(t: &NT, out: &mut BTreeSet<String>) {
         NT::Var(x) => {
             out.insert(x.clone());
         }
-        NT::Add(a, b) | NT::Mul(a, b) => {
+        NT::Add(a, b) | NT::Mul(a, b) | NT::Sub(a, b) => {
             nt_free(a, out);
             nt_free(b, out);
         }
@@ -308,6 +317,7 @@ pub fn nt_eval(t: &NT, env: &BTreeMap<String, u32>, p: u32) -> u32 {
         NT::Add(a, b) => (nt_eval(a, env, p) + nt_eval(b, env, p)) % p,
         NT::Mul(a, b) => (nt_eval(a, env, p) * nt_eval(b, env, p)) % p,
         NT::Neg(a) => (p - nt_eval(a, env, p)) % p,
+        NT::Sub(a, b) => (nt_eval(a, env, p) + p - nt_eval(b, env, p)) % p,
         NT::Sum(x, b) => {
             let mut s = 0;
             for v in SUM_RANGE {
@@ -342,6 +352,7 @@ fn nt_subst(body: &NT, x: &str, e: &NT, counter: &mut u32) -> NT {
         NT::Add(a, b) => NT::Add(Box::new(nt_subst(a, x, e, counter)), Box::new(nt_subst(b, x, e, counter))),
         NT::Mul(a, b) => NT::Mul(Box::new(nt_subst(a, x, e, counter)), Box::new(nt_subst(b, x, e, counter))),
         NT::Neg(a) => NT::Neg(Box::new(nt_subst(a, x, e, counter))),
+        NT::Sub(a, b) => NT::Sub(Box::new(nt_subst(a, x, e, counter)), Box::new(nt_subst(b, x, e, counter))),
         NT::Sum(y, b) => {
             if y == x {
                 return body.clone();
@@ -400,6 +411,7 @@ pub fn pt_inst(p: &PT, sub: &BTreeMap<String, NT>) -> NT {
                 "add" => NT::Add(Box::new(ch(0)), Box::new(ch(1))),
                 "mul" => NT::Mul(Box::new(ch(0)), Box::new(ch(1))),
                 "neg" => NT::Neg(Box::new(ch(0))),
+                "sub" => NT::Sub(Box::new(ch(0)), Box::new(ch(1))),
                 "sum" => {
                     let PArg::Bind(x, _) = &args[0] else { panic!() };
                     NT::Sum(x.clone(), Box::new(ch(0)))
@@ -705,6 +717,10 @@ pub fn special_terms() -> Vec<T> {
         // let x = y in (x + neg x): the body's node mentions a slot twice that becomes redundant, then is extracted by let-subst
         tlet(100, node2("add", tvar(100), node1("neg", tvar(100))), tvar(0)),
         tlet(100, node2("add", node2("add", tvar(100), node1("neg", tvar(100))), tvar(1)), tvar(0)),
+        // let z = (c - c) in z + (a - b): the bound term's node mentions a slot twice that `sub-self` makes redundant
+        // while its children are leaves, so the extractor meets it before the class has a best node
+        tlet(100, node2("add", tvar(100), node2("sub", tvar(0), tvar(1))), node2("sub", tvar(2), tvar(2))),
+        tlet(100, node2("add", tvar(100), tvar(0)), node2("sub", tvar(1), tvar(1))),
     ]
 }
 
@@ -735,6 +751,7 @@ pub fn eval_node(n: &Ar, env: &HashMap<Slot, u32>, m: &Model) -> Option<u32> {
         Ar::Add(a, b) => (eval_child(a, env, m)? + eval_child(b, env, m)?) % p,
         Ar::Mul(a, b) => (eval_child(a, env, m)? * eval_child(b, env, m)?) % p,
         Ar::Neg(a) => (p - eval_child(a, env, m)?) % p,
+        Ar::Sub(a, b) => (eval_child(a, env, m)? + p - eval_child(b, env, m)?) % p,
         Ar::Sum(b) => {
             let mut s = 0;
             for v in SUM_RANGE {
